@@ -165,55 +165,82 @@ Qed.
 Lemma suffix_no_slash : has_char slash INFLIGHT_SUFFIX = false.
 Proof. reflexivity. Qed.
 
-(* the regenerated _register_inflight writes exactly the marker the collector's naming convention expects *)
+Lemma basename_noslash : forall x, has_char slash x = false -> basename x = x.
+Proof.
+  intros [|a r] H; [reflexivity|]. cbn [has_char] in H. apply orb_false_iff in H. destruct H as [H1 H2].
+  cbn [basename]. rewrite H2, H1. reflexivity.
+Qed.
+
+Lemma basename_app_noslash : forall s x, has_char slash x = false -> basename (s ++ x) = (basename s ++ x)%string.
+Proof.
+  induction s as [|a r IH]; intros x H.
+  - apply basename_noslash. exact H.
+  - cbn [append basename]. rewrite has_char_app, H, orb_false_r.
+    destruct (has_char slash r); [apply IH; exact H|]. destruct (Ascii.eqb a slash); reflexivity.
+Qed.
+
+(* The key of the marker the REGENERATED _register_inflight writes spells the WHOLE table-relative path of the registered file,
+   and the payload is that path. *)
+Lemma register_marker_keyed : forall f,
+  register_marker_path f = ((INFLIGHT_PATH ++ "/") ++ (resolve f ++ INFLIGHT_SUFFIX))%string
+  /\ register_marker_payload f = resolve f.
+Proof. intro f. split; reflexivity. Qed.
+
+Lemma keyed_of_registered : forall t,
+  py_drop_end (String.length INFLIGHT_SUFFIX)
+              (py_drop (String.length (INFLIGHT_PATH ++ "/")) ((INFLIGHT_PATH ++ "/") ++ (t ++ INFLIGHT_SUFFIX))) = t.
+Proof. intro t. rewrite py_drop_app. apply py_drop_end_app. discriminate. Qed.
+
+(* marker identity = the whole table-relative path: two files share a marker only if they are the same file *)
+Theorem register_marker_path_injective : forall f g, register_marker_path f = register_marker_path g -> resolve f = resolve g.
+Proof.
+  intros f g H. rewrite (proj1 (register_marker_keyed f)), (proj1 (register_marker_keyed g)) in H.
+  rewrite <- (keyed_of_registered (resolve f)), <- (keyed_of_registered (resolve g)), H. reflexivity.
+Qed.
+
+(* The writer's marker naming and the collector's fallback agree, for EVERY file a transaction can register: any file whose
+   table-relative path lies under data/ or metadata/ -- in ANY sub-directory.  The marker the regenerated _register_inflight
+   writes for it is a marker for the collector (under INFLIGHT_PATH, name ending in ".inflight"), and what the collector
+   protects when that marker's PAYLOAD cannot be used (the regenerated marker_fallback of the marker's key) is EXACTLY the
+   file the writer registered (the reader's resolution of the payload the writer stored).  With markers named after the
+   file's basename this is unprovable (false for data/p1/x.parquet: Props/C07.v). *)
+Theorem registered_marker_fallback_covers : forall f, table_relative (resolve f) ->
+  is_marker_key (register_marker_path f)
+  /\ name_candidates (register_marker_path f) = [resolve (register_marker_payload f)]
+  /\ marker_fallback (register_marker_path f) (basename (register_marker_path f)) = [resolve (register_marker_payload f)].
+Proof.
+  intros f TR. destruct (register_marker_keyed f) as [P Q].
+  assert (R: resolve (register_marker_payload f) = resolve f) by (rewrite Q; apply lstrip_c_idem).
+  assert (NC: name_candidates (register_marker_path f) = [resolve f]).
+  { rewrite P. unfold name_candidates. cbv zeta. rewrite keyed_of_registered.
+    destruct TR as [D|M]; [rewrite D; reflexivity|rewrite M, orb_true_r; reflexivity]. }
+  split; [|split].
+  - rewrite P. split; [apply (startswith_app (INFLIGHT_PATH ++ "/"))|].
+    rewrite <- (append_assoc (INFLIGHT_PATH ++ "/") (resolve f) INFLIGHT_SUFFIX).
+    rewrite basename_app_noslash by reflexivity. apply endswith_app.
+  - rewrite R. exact NC.
+  - rewrite marker_fallback_covers, R. exact NC.
+Qed.
+
+Theorem accepted_marker_fallback_covers : forall normpath f, append_accepts_path normpath f = true ->
+  is_marker_key (register_marker_path f)
+  /\ marker_fallback (register_marker_path f) (basename (register_marker_path f)) = [resolve (register_marker_payload f)]
+  /\ startswith "data/" (resolve (register_marker_payload f)) = true.
+Proof.
+  intros np f A. pose proof (accepts_under_data np f A) as D. unfold wf_data_ref in D.
+  destruct (registered_marker_fallback_covers f (or_introl D)) as [K [_ F]].
+  split; [exact K|]. split; [exact F|].
+  rewrite (proj2 (register_marker_keyed f)). unfold resolve at 1. rewrite lstrip_c_idem. exact D.
+Qed.
+
 Lemma open_tx_marker : forall name, has_char slash name = false ->
-  register_marker_path (data_key name) = ((INFLIGHT_PATH ++ "/") ++ (name ++ INFLIGHT_SUFFIX))%string
+  register_marker_path (data_key name) = ((INFLIGHT_PATH ++ "/") ++ (data_key name ++ INFLIGHT_SUFFIX))%string
   /\ register_marker_payload (data_key name) = data_key name
   /\ In (resolve (register_marker_payload (data_key name))) (name_candidates (register_marker_path (data_key name))).
 Proof.
-  intros name H.
-  assert (B: basename (data_key name) = name) by (apply (basename_join "data" name H)).
-  assert (P: register_marker_path (data_key name) = ((INFLIGHT_PATH ++ "/") ++ (name ++ INFLIGHT_SUFFIX))%string).
-  { unfold register_marker_path. cbv zeta. rewrite B. reflexivity. }
-  assert (Q: register_marker_payload (data_key name) = data_key name) by reflexivity.
-  split; [exact P|]. split; [exact Q|]. rewrite Q, P, resolve_data_key. unfold name_candidates. cbv zeta.
-  assert (B2: basename ((INFLIGHT_PATH ++ "/") ++ (name ++ INFLIGHT_SUFFIX))%string = (name ++ INFLIGHT_SUFFIX)%string).
-  { apply (basename_join INFLIGHT_PATH (name ++ INFLIGHT_SUFFIX)%string). rewrite has_char_app, H. reflexivity. }
-  rewrite B2. rewrite py_drop_end_app by discriminate. left. reflexivity.
-Qed.
-
-(* The writer's marker naming and the collector's fallback agree, for EVERY file a transaction registers: a data file under
-   data/ or a manifest / manifest list under metadata/manifests/ (written with or without a leading slash), whose own name has
-   no "/".  The marker _register_inflight writes for it (regenerated register_marker_path) is a marker for the collector
-   (under INFLIGHT_PATH, name ending in ".inflight"), and the paths the collector protects when that marker's PAYLOAD
-   cannot be used (regenerated marker_fallback of the marker's name) contain the file the writer registered (the reader's
-   resolution of the payload the writer stored).  A writer that names its markers differently ("<txn>-<basename>.inflight")
-   makes the fallback protect paths that do not exist: this theorem is then unprovable. *)
-Definition registered_dirs : list string := ["data"; "metadata/manifests"; "/data"; "/metadata/manifests"].
-
-Theorem registered_marker_fallback_covers : forall dir name, In dir registered_dirs -> has_char slash name = false ->
-  let file := (dir ++ String slash name)%string in
-  is_marker_key (register_marker_path file)
-  /\ In (resolve (register_marker_payload file)) (marker_fallback (basename (register_marker_path file)))
-  /\ (startswith "data/" (resolve (register_marker_payload file)) = true
-      \/ startswith "metadata/manifests/" (resolve (register_marker_payload file)) = true).
-Proof.
-  intros dir name Hd H. cbv zeta.
-  assert (B: basename (dir ++ String slash name) = name) by (apply basename_join; exact H).
-  assert (P: register_marker_path (dir ++ String slash name) = ((INFLIGHT_PATH ++ "/") ++ (name ++ INFLIGHT_SUFFIX))%string).
-  { unfold register_marker_path. cbv zeta. rewrite B. reflexivity. }
-  assert (B2: basename ((INFLIGHT_PATH ++ "/") ++ (name ++ INFLIGHT_SUFFIX))%string = (name ++ INFLIGHT_SUFFIX)%string).
-  { apply (basename_join INFLIGHT_PATH (name ++ INFLIGHT_SUFFIX)%string). rewrite has_char_app, H. reflexivity. }
-  rewrite P, B2. split; [|split].
-  - split; [apply (startswith_app (INFLIGHT_PATH ++ "/"))|rewrite B2; apply endswith_app].
-  - unfold marker_fallback. cbv zeta. change (String.length ".inflight") with (String.length INFLIGHT_SUFFIX).
-    rewrite py_drop_end_app by discriminate.
-    destruct Hd as [<-|[<-|[<-|[<-|[]]]]]; [left|right; left|left|right; left]; reflexivity.
-  - destruct Hd as [<-|[<-|[<-|[<-|[]]]]]; [left|right|left|right].
-    + change (resolve (register_marker_payload ("data" ++ String slash name))) with ("data/" ++ name)%string. apply startswith_app.
-    + change (resolve (register_marker_payload ("metadata/manifests" ++ String slash name))) with ("metadata/manifests/" ++ name)%string. apply startswith_app.
-    + change (resolve (register_marker_payload ("/data" ++ String slash name))) with ("data/" ++ name)%string. apply startswith_app.
-    + change (resolve (register_marker_payload ("/metadata/manifests" ++ String slash name))) with ("metadata/manifests/" ++ name)%string. apply startswith_app.
+  intros name _. split; [reflexivity|]. split; [reflexivity|].
+  assert (TR: table_relative (resolve (data_key name))) by (left; rewrite resolve_data_key; apply startswith_app).
+  destruct (registered_marker_fallback_covers _ TR) as [_ [NC _]]. rewrite NC. left. reflexivity.
 Qed.
 
 Lemma hinv_open_tx : forall h name mt mmt, hinv h -> has_char slash name = false ->
